@@ -27,6 +27,7 @@ type faultReader struct {
 	K        int
 	Shape    int
 	Chunk    int
+	Split    int // > 0: the first read delivers at most Split bytes (one short read before the fault)
 	pos      int64
 	SeekFail bool
 	failed   bool
@@ -44,6 +45,9 @@ func (r *faultReader) Read(p []byte) (int, error) {
 	n := int64(len(p))
 	if r.Chunk > 0 && n > int64(r.Chunk) {
 		n = int64(r.Chunk)
+	}
+	if r.Split > 0 && r.pos == 0 && n > int64(r.Split) {
+		n = int64(r.Split)
 	}
 	if r.pos+n > lim {
 		n = lim - r.pos
@@ -104,6 +108,7 @@ type ReadCase struct {
 	K      int    `json:"fault_offset"`
 	Shape  int    `json:"shape"`
 	Chunk  int    `json:"chunk"`
+	Split  int    `json:"first_read_at_most,omitempty"`
 	Seek   bool   `json:"seek_fails,omitempty"`
 }
 
@@ -117,7 +122,7 @@ func ttmlRootEnd(b []byte) int {
 }
 
 func checkRead(rc ReadCase) (key, msg string, out uint64) {
-	r := &faultReader{Data: rc.Data, K: rc.K, Shape: rc.Shape, Chunk: rc.Chunk, SeekFail: rc.Seek}
+	r := &faultReader{Data: rc.Data, K: rc.K, Shape: rc.Shape, Chunk: rc.Chunk, Split: rc.Split, SeekFail: rc.Seek}
 	s, err, pan := corpus.Read(rc.Format, r)
 	desc := fmt.Sprintf("%s (%d bytes), stream fails at offset %d (shape %d, chunk %d, seek-fails %v)", rc.Doc, len(rc.Data), rc.K, rc.Shape, rc.Chunk, rc.Seek)
 	if pan != "" {
@@ -341,6 +346,25 @@ func run(c *core.Ctx) {
 				}
 			}
 		}
+		if c.Tier == core.Thorough && len(d.Data) <= 2000 {
+			// every fault offset under every single-split delivery (the 1-deviation schedules of C17)
+			for k := 1; k <= end; k++ {
+				if !c.Mine() {
+					continue
+				}
+				for j := 1; j < k; j++ {
+					rc := ReadCase{Doc: d.Name, Format: d.Format, Data: d.Data, K: k, Shape: 0, Split: j}
+					key, msg, out := checkRead(rc)
+					c.Record("read.split."+d.Format, out, core.Hash64(d.Name, "split", fmt.Sprint(k, j)), nil)
+					if key != "" {
+						c.Violate("read", key, msg, rc, len(d.Data)*10+k)
+					}
+				}
+				if c.Expired() {
+					return
+				}
+			}
+		}
 		if d.Format == "ts" && c.Mine() {
 			rc := ReadCase{Doc: d.Name, Format: d.Format, Data: d.Data, K: len(d.Data) + 1, Seek: true}
 			key, msg, out := checkRead(rc)
@@ -473,7 +497,7 @@ func init() {
 		Rule: "reads: for every corpus document and EVERY offset k in 0..len (TTML: up to the end of the root element) the stream delivers k bytes and then fails with a sentinel error, in two shapes ((0,err) on the next call; the last bytes together with err) and under whole-buffer and 7-byte (thorough: 1,7,188,1024-byte) deliveries; oracle: a reader that reached the fault returns a non-nil error; over-long lines 65535..2^20 at three positions in srt/vtt/ssa: error or complete result; writes: for every parsed corpus document x every writer x every k in 0..len(output)-1 a destination that accepts k bytes then fails in two shapes; oracle: non-nil error; fault-free run hands the complete output to the destination; file helpers: missing file, directory, missing parent, path under a regular file x every extension; distinct = (document, offset, shape, delivery)",
 		Scope: map[core.Tier]string{
 			core.Quick:    "all corpus documents (hand-made + /repo/testdata) x every read offset x 2 shapes x 2 deliveries; 45 over-long-line documents; writes: every offset for hand-made documents and same-format testdata, block-structured offsets for cross-format testdata conversions; 42 file-helper cases",
-			core.Thorough: "reads with 5 deliveries; writes at every offset for every document x writer pair",
+			core.Thorough: "reads with 5 deliveries and, for documents <=2000 bytes, every fault offset under every single-split delivery (len^2/2 executions per document); writes at every offset for every document x writer pair",
 		},
 		Assumptions: []string{"Go toolchain and standard library", "astits for the transport-stream layer", "wrapping with %w is recorded but not required"},
 		Plain:       run, Replay: replay,
